@@ -13,7 +13,13 @@ FIELD = {
     'i': ('u8', {'ignore': True}),
     'm': ('u8', {'method': 'eq_le'}),
     'h': ('u8', {'method': 'eq_half'}),   # lawful method, for the law harness
+    'd': ('PhantomData', None),           # a *user* type named like core's PhantomData (declared in the module): it carries data and is compared
+    'e': ('::core::marker::PhantomData<u16>', {'method': 'ph_never'}),   # the real PhantomData with a method: the method decides
 }
+USER_PHANTOM = '''#[derive(PartialEq, Eq, Clone, Copy, Debug)]
+pub struct PhantomData(pub u8);
+impl Sym for PhantomData { fn sym() -> Self { PhantomData(kani::any()) } }
+'''
 
 FUNCTIONS = ['<T as ::core::cmp::PartialEq>::eq (educe expansion)', '<T as ::core::cmp::PartialEq>::ne (default via eq)']
 
@@ -54,6 +60,8 @@ def eq_term(f, a, b, deref=False):
         return f'eq_le({a}, {b})'
     if c == 'h':
         return f'eq_half({a}, {b})'
+    if c == 'e':
+        return 'false'
     return f'(*{a} == *{b})'
 
 
@@ -86,7 +94,9 @@ def emit(t, modname, cfgid, sp=None, pre='', law_t=None, classes=(), xf=None, ir
         if law_t is not None:
             xf(law_t)
     body = pre + render_type(t, sp) + any_fn(t) + oracle_fn(t)
-    covers = ['oracle eq']
+    # a compared field whose method always answers false makes the oracle unsatisfiable for that variant
+    never = all(any(getattr(f, 'code', 'p') == 'e' for f in v.fields) for v in t.variants) and bool(t.variants)
+    covers = [] if never else ['oracle eq']
     if len(t.variants) > 1 or has_compared(t):
         covers.append('oracle ne')
     body += Harness('h_eq', covers=covers + (['irreflexive value'] if irreflexive else [])).attrs()
@@ -206,6 +216,14 @@ def gen(tier, seed, sp_factory=None):
     for k, sh in enumerate(BOTH_SHAPES):
         car = ['PartialEq', 'Eq', 'PartialEq'][k]
         mods.append(emit(build(sh, car, car == 'Eq'), f'm{len(mods):04d}', f'{S.shape_id(sh)}/carrier={car}/ignore+method on one field'))
+    for k, sh in enumerate(LIBNAME_SHAPES):
+        car = ['PartialEq', 'Eq', 'PartialEq', 'Eq'][k]
+        mods.append(emit(build(sh, car, car == 'Eq'), f'm{len(mods):04d}', f'{S.shape_id(sh)}/carrier={car}/field types named PhantomData', pre=USER_PHANTOM))
+    for vk in ('tuple', 'named'):
+        sh = ('struct', [(vk, ['p'] * S.WIDE)])
+        mods.append(emit(build(sh, 'PartialEq', False), f'm{len(mods):04d}', f'{S.shape_id(sh)}/carrier=PartialEq/wide'))
+    sh = ('enum', [('unit', []), ('tuple', ['p', 'i'] * 6 + ['p'])])
+    mods.append(emit(build(sh, 'Eq', True), f'm{len(mods):04d}', f'{S.shape_id(sh)}/carrier=Eq/wide'))
     mods += special_modules(len(mods))
     decl, anyv, vidx = S.big_enum('PartialEq')
     hb = Harness('h_big', covers=['equal', 'unequal'])
@@ -239,6 +257,12 @@ BOTH_SHAPES = [
     ('struct', [('named', ['p', 'x', 'p'])]),
     ('struct', [('tuple', ['x', 'q'])]),
     ('enum', [('tuple', ['x', 'p']), ('named', ['m', 'x']), ('unit', [])]),
+]
+LIBNAME_SHAPES = [
+    ('struct', [('named', ['i', 'd'])]),
+    ('struct', [('tuple', ['d', 'p'])]),
+    ('enum', [('tuple', ['d', 'i']), ('named', ['p', 'd']), ('unit', [])]),
+    ('struct', [('named', ['p', 'e'])]),
 ]
 IRREFLEXIVE_SHAPES = [
     ('struct', [('named', ['n', 'p'])]),
